@@ -89,8 +89,10 @@ def values_for(ty, cls, rng, n):
         lo, hi = DAYS(1, 1, 1) * 86400 - 366 * 86400, DAYS(9999, 12, 31) * 86400 + 86399
         return base + [{"secs": lo + rng.next() % (hi - lo + 1), "nanos": rng.below(10**9)} for _ in range(n)]
     if ty == "string":
-        return {"empty": [""], "ascii": ["hello world"], "reserved": ["a/b?c=d&e#f%20+ "], "unicode": ["héllo ☃ \U0001f600"],
-                "looksnumeric": ["123", "1e5", "true"], "NaNtext": ["NaN", "Infinity"]}[cls]
+        # white space at the edges (blank, tab, line feed, no-break space) is part of the value
+        return {"empty": [""], "ascii": ["hello world", " lead", "trail ", " ", "\ttab\t", "line\n"], "reserved": ["a/b?c=d&e#f%20+ ", "%41", "+"],
+                "unicode": ["héllo ☃ \U0001f600", "\u00a0nbsp\u00a0", "\u3000wide"], "looksnumeric": ["123", "1e5", "true", " 1", "1 "],
+                "NaNtext": ["NaN", "Infinity", " NaN"]}[cls]
     return []
 
 
